@@ -11,6 +11,9 @@ def _run(fields):
 
 
 _TECH = "Lean 4 proof (invariants by induction over the op sequence of the transition system) + differential correspondence"
+_IOV = ("Writev passes at most IOV_MAX (1024) non-empty slices to writev(2) (more would be a fatal EINVAL in reality); "
+        "the generator uses 0-6 slices and the model's kernel answer does not depend on the slice count")
+
 _KERNEL = ("kernel semantics are inputs of the model: every write/writev/sendfile answer (accepted count <= request, EAGAIN, "
            "EINTR, fatal error) is scripted, an exhausted script means EAGAIN, a zero-length request returns 0 without needing room; "
            "epoll: MOD before ADD fails with ENOENT, ONESHOT disarms the descriptor when an event is reported until the next "
@@ -160,13 +163,17 @@ PROPS = {
             "note": "model fidelity is sampled on every run (simulated kernel: vsys shim); real sockets are not part of this check",
             "technique": _TECH},
         "lean": ["NbioVerif.Properties.C01", "NbioVerif.Properties.ConnTimer", "NbioVerif.Properties.ConnClose"], "drivers": ["conndrv"], "harness": ["hconn"],
-        "runs": [_run_with_real(["n", "err", "ow", "cb", "rc", "deliv", "closed", "wire", "onclose", "wtimer"])],
+        "runs": [_run_with_real(["n", "err", "ow", "cb", "rc", "deliv", "closed", "wire", "wl", "left", "pend", "acc", "onclose", "wtimer"])],
         "oracles": ["c01-"], "cs": _CS,
         "rule": "case = (stream type, epoll mode, bound, calls inside the open callback, op sequence with scripted kernel answers); distinct by "
                 "hash of (cell, per op: kind, error class, delivered event parts, queue length class, closed); non-trivial iff a backlog existed "
                 "at some observation or a call returned an error",
         "assumptions": [_KERNEL, _ATOMIC,
                         "sendfile(2) transfers the range it reports and the source file is not truncated while queued; dup(2) succeeds",
+                        _IOV,
+                        "non-interleaving of concurrent calls rests on 'one call = one critical section' (critical-section predicates "
+                        "cs_write_calls_locked + the real-tier oracle c01-real-stream with concurrent writer goroutines), not on a "
+                        "model of two writers inside one call",
                         "a call failing with a fatal error may have put a prefix of its own input on the wire before the connection was closed "
                         "(Sendfile reports 0 then): the closed-connection clause allows exactly that prefix"],
     },
@@ -179,12 +186,16 @@ PROPS = {
             "note": "liveness in safety form (armed invariant + decreasing measure) under the assumption that an armed writable fd is eventually reported",
             "technique": _TECH},
         "lean": ["NbioVerif.Properties.C04"], "drivers": ["conndrv"], "harness": ["hconn"],
-        "runs": [_run_with_real(["deliv", "closed", "wl", "wadded", "reg", "ctl", "onclose"])],
+        "runs": [_run_with_real(["deliv", "closed", "wl", "wadded", "reg", "kout", "dis", "ctl", "onclose"])],
         "oracles": ["c04-"], "cs": _CS,
         "rule": "same stream as C01 (writes inside the open callback before registration, from the data callback while an event is handled, "
                 "and between events; EPOLLOUT-only events whose flush ends in EAGAIN); non-trivial iff a backlog existed at some observation",
         "assumptions": [_KERNEL, _ATOMIC,
-                        "ResetPollerEvent reads closed/writeList without the mutex; the model treats the read and the epoll_ctl as one step",
+                        "answer scripts are finite and an exhausted script means EAGAIN: a kernel answering (0, nil) or EINTR for ever "
+                        "(where Go's writeFile / writeBuffer / the flush loop would spin under the mutex) is excluded",
+                        "the default read path of the poller is modelled (g.onRead == nil, AsyncReadInPoller off): a custom OnRead "
+                        "handler must call ResetPollerEvent itself in ONESHOT mode, and the async read path re-arms from its task "
+                        "goroutine (same ResetPollerEvent, now under the connection mutex)",
                         "fairness: an armed, writable descriptor is eventually reported by epoll_wait"],
     },
     "C17": {
@@ -199,6 +210,6 @@ PROPS = {
         "oracles": ["c17-"], "cs": _CS,
         "rule": "same stream as C01 with bounds drawn around the running totals (left + n = bound - 1, bound, bound + 1) and fill/drain cycles; "
                 "non-trivial iff a backlog existed at some observation or a call returned an error",
-        "assumptions": [_KERNEL, _ATOMIC],
+        "assumptions": [_KERNEL, _ATOMIC, _IOV],
     },
 }
